@@ -565,9 +565,93 @@ def g15(repo, res):
                         "nested and underscore notation given in one call are merged order dependently and one of them is lost", fn.lineno))
 
 
+def g17_g18(repo, res):
+    """G17 `DisplayContext.reset()` forgets everything a finished `show_context()` collected: every attribute initialised in __init__
+        is re-assigned unconditionally, except the one a `reset_<name>` flag is named after (keywords kept from one context would be
+        applied to the next display with show()-level priority)
+    G18 a style leaf whose setter treats its value as a sequence (iterates over it to validate the entries) stores a converted copy
+        (`tuple(val)`, `list(val)`, `np.array(val)`), not the caller's own list: otherwise a later in-place change of that list changes
+        the style of every object it was given to, in some notations only"""
+    m = repo.mod("magpylib._src.display.display")
+    cl = repo.cls_by_key.get((m.name, "DisplayContext"))
+    res.require(cl is not None and "reset" in cl.methods and "__init__" in cl.methods, "anchor vanished: display.DisplayContext")
+    init_attrs = [t.attr for s_ in ast.walk(cl.methods["__init__"]) if isinstance(s_, ast.Assign) for t in s_.targets
+                  if isinstance(t, ast.Attribute) and isinstance(t.value, ast.Name) and t.value.id == "self"]
+    rs = cl.methods["reset"]
+    uncond = {t.attr for s_ in rs.body if isinstance(s_, ast.Assign) for t in s_.targets if isinstance(t, ast.Attribute)}
+    flags = {a.arg[len("reset_"):] for a in rs.args.args if a.arg.startswith("reset_")}
+    cond = {}
+    for iff in [x for x in ast.walk(rs) if isinstance(x, ast.If)]:
+        for s_ in ast.walk(iff):
+            if isinstance(s_, ast.Assign):
+                for t in s_.targets:
+                    if isinstance(t, ast.Attribute):
+                        cond[t.attr] = iff
+    for a in init_attrs:
+        ok = a in uncond or (a in cond and a in flags)
+        res.ob(f"G17:DisplayContext.reset:{a}", ok, {"rule": "G17", "attribute": a, "reset_unconditionally": a in uncond, "behind_flag": a in cond})
+        if not ok:
+            where = cond.get(a, rs)
+            res.add(Finding("G17", m.rel, "DisplayContext.reset", where, f"`{a}` is {'only reset under a flag that is not named after it' if a in cond else 'not reset at all'}: "
+                            "what one show_context() collected (style keywords!) is applied to the next display", where.lineno))
+    # ---- G18
+    n = 0
+    for (mname, cname), c in repo.cls_by_key.items():
+        if mname not in ("magpylib._src.style", "magpylib._src.defaults.defaults_classes"):
+            continue
+        for name, fn in c.setters.items():
+            ps = [a.arg for a in fn.args.args if a.arg != "self"]
+            if not ps:
+                continue
+            p = ps[0]
+            iterates = any((isinstance(x, (ast.comprehension, ast.For)) and isinstance(x.iter, ast.Name) and x.iter.id == p) for x in ast.walk(fn))
+            if not iterates:
+                continue
+            n += 1
+            stores = [s_ for s_ in ast.walk(fn) if isinstance(s_, ast.Assign) and any(isinstance(t, ast.Attribute) and t.attr == "_" + name for t in s_.targets)]
+            rebound = any(isinstance(s_, ast.Assign) and any(isinstance(t, ast.Name) and t.id == p for t in s_.targets) and isinstance(s_.value, ast.Call)
+                          and getattr(s_.value.func, "id", getattr(s_.value.func, "attr", "")) in ("tuple", "list", "array", "asarray", "copy", "deepcopy", "validate_property_class")
+                          for s_ in ast.walk(fn))
+            direct = [s_ for s_ in stores if isinstance(s_.value, ast.Name) and s_.value.id == p]
+            ok = not direct or rebound
+            res.ob(f"G18:{cname}.{name}", ok, {"rule": "G18", "setter": f"{cname}.{name}", "sequence_valued": True, "converted_before_store": rebound})
+            if not ok:
+                res.add(Finding("G18", c.mod.rel, f"{cname}.{name} (setter)", direct[0], f"the setter iterates over `{p}` (a sequence) and stores the caller's own object: a later "
+                                "in-place change of that list changes this style - and every other style it was given to", direct[0].lineno))
+    res.require(n >= 1, "G18: no sequence-valued style leaf found (Path.frames confirmed by hand)")
+
+
+# sites that switch off name matching in MagicProperties.update, each confirmed by reading (one line of reason)
+NO_MATCH_TRIAGED = {
+    "get_style": "fills unset leaves from the (already validated) default tree; names that an object's style does not have are expected",
+    "TriangularMesh.to_TriangleCollection": "copies the mesh's own validated style onto the new collection's (smaller) style tree",
+    "DefaultSettings.reset": "re-applies the hard coded DEFAULTS table",
+    "DisplayStyle.reset": "re-applies the hard coded DEFAULTS table",
+    "process_animation_kwargs": "animation_* keywords, not style names (outside C20)",
+}
+
+
+def g19(repo, res):
+    """G19 invalid style names are rejected on every public path: MagicProperties.update drops unknown names silently when called with
+    `_match_properties=False`; only the triaged internal sites (values that come from validated trees / tables) may do that"""
+    n = 0
+    for m, q, fn, cl in repo.all_functions():
+        for c in ast.walk(fn):
+            if isinstance(c, ast.Call) and isinstance(c.func, ast.Attribute) and c.func.attr == "update":
+                mk = next((k.value for k in c.keywords if k.arg == "_match_properties"), None)
+                if isinstance(mk, ast.Constant) and mk.value is False:
+                    n += 1
+                    ok = q in NO_MATCH_TRIAGED
+                    res.ob(f"G19:{q}", ok, {"rule": "G19", "function": q, "call": norm(c), "triaged_as": NO_MATCH_TRIAGED.get(q)})
+                    if not ok:
+                        res.add(Finding("G19", m.rel, q, c, "style names are applied with `_match_properties=False` at an untriaged site: misspelt / unknown names below a valid "
+                                        "group are dropped silently instead of being rejected", c.lineno))
+    res.require(n >= 3, f"G19: only {n} `_match_properties=False` sites found (5 confirmed by hand)")
+
+
 def run(repo, res, tier):
     res.rules = ["G1 reset/DEFAULTS vs property tree", "G2 alias-free properties", "G3 leaf setters validate", "G4 no caller dict mutated/captured", "G5 precedence dataflow in get_style", "G6 no memoisation on the style path", "G7 temporary style removed on all exits", "G8 exact validation of style names", "G5b None-filters not truthiness", "REC-FWD style keywords forwarded through recursion", "G4b style setter adopts no foreign style object", "G10 no preset values in style constructors",
-                 "G12 generic families before specific ones", "G13 lazy style kwargs not bypassed", "G13b rejected style kwargs stay pending", "G14 style copies are deep", "G15 show() flattens every style keyword", "G16 admitted-value tables are collections, not strings"]
+                 "G12 generic families before specific ones", "G13 lazy style kwargs not bypassed", "G13b rejected style kwargs stay pending", "G14 style copies are deep", "G15 show() flattens every style keyword", "G16 admitted-value tables are collections, not strings", "G17 DisplayContext.reset forgets everything", "G18 sequence-valued leaves store a copy", "G19 name matching switched off only at triaged internal sites"]
     g1(repo, res)
     g2_g3(repo, res)
     import origin_rules
@@ -582,6 +666,8 @@ def run(repo, res, tier):
     g13b(repo, res)
     g14(repo, res)
     g15(repo, res)
+    g17_g18(repo, res)
+    g19(repo, res)
     import rules_domain
     rules_domain.sets_are_collections(repo, res, 'G16')
     res.assumptions += ["property tree links are the validate_property_class(val, name, Class, self) calls in the setters",
